@@ -217,6 +217,7 @@ type cluster struct {
 	legacy   bool         // the network strips ID and Addr from AppendEntries / InstallSnapshot headers (a leader of an older release: only the deprecated Leader field names it)
 	codes    map[int]int  // result code per finished call
 	dbgLines []string
+	lastTransfer int // virtual ms of the latest leadership-transfer call (-1: none)
 	pv2      bool // every server runs protocol version 2
 	track    bool // commit-tracking log stores with RestoreCommittedLogs
 	slowFSM  bool // some FSMs take a few virtual ms per Apply
@@ -547,6 +548,11 @@ func (c *cluster) callWith(n *cnode, kind string, fn func(r *raft.Raft) error) i
 	c.mu.Unlock()
 	r := n.r
 	life := n.life
+	if kind == "t" {
+		c.mu.Lock()
+		c.lastTransfer = c.h.now()
+		c.mu.Unlock()
+	}
 	c.wg.Add(1)
 	go func() {
 		defer c.wg.Done()
@@ -1184,6 +1190,7 @@ func runClusterCase(rng *rand.Rand, thorough bool, out *bufio.Writer, st *stats,
 			default: // a plain isolation of one server for a while (C14: its term must not move)
 				if len(ups) > 0 {
 					n := ups[rng.Intn(len(ups))]
+					isoStart := c.h.now()
 					c.isolate(n.id, true)
 					for k, m := 0, 2+rng.Intn(6); k < m; k++ {
 						time.Sleep(100 * time.Millisecond)
@@ -1191,6 +1198,12 @@ func runClusterCase(rng *rand.Rand, thorough bool, out *bufio.Writer, st *stats,
 					}
 					c.isolate(n.id, false)
 					st.Hist["isolation"]++
+					c.mu.Lock()
+					recentTransfer := c.lastTransfer > 0 && c.lastTransfer >= isoStart-1000
+					c.mu.Unlock()
+					if recentTransfer { // a transfer election (TimeoutNow) may legitimately have raised its term
+						break
+					}
 					// C14: reconnecting does not disturb a healthy leader (calm network only)
 					if l := c.leader(); l != nil && l.id != n.id && l.id != nsrv && c.calm() && len(ups) == nsrv {
 						t0, term0 := c.h.now(), l.r.CurrentTerm()
